@@ -87,6 +87,13 @@ def _c01(reg, tier):
     return [Group("c01", hs, jobs=16, timeout=600, confirm=confirm, stubs=[UF_STUB])]
 
 
+# kani-driver buffers CBMC's messages; harnesses that unwind thousands of loop
+# iterations emit gigabytes of "Unwinding loop" statistics lines at verbosity 9
+# (kani-driver itself was OOM-killed at 32 GB). Heavy-output groups run CBMC at
+# verbosity 7: results are unaffected, per-harness symex/solver statistics are
+# then not available (wall time still is).
+QUIET = ("--verbosity", "7")
+
 UF_STUB = "u64::wrapping_mul / u32::wrapping_mul replaced by a recording stub = uninterpreted function with Ackermann consistency (large-constant multiplications; applies to implementation and model alike; stub-free twins confirm failures)"
 GEN_STUB = "<Core as BlockRngCore>::generate replaced by a recording stub returning arbitrary words (block contents are C02/C03's subject)"
 
@@ -115,16 +122,16 @@ def _c02(tier):
                 stubs=["Hc128Core::step_p / step_q replaced by recording stubs (indices logged, arbitrary return word) in generate_seq and sixteen_seq; the steps have their own stub-free harnesses",
                        "expand_placement: u32::wrapping_add replaced by a stub returning the step number (dataflow tags), Hc128Core::sixteen_steps replaced by a counting stub"])]
     if tier == "thorough":
-        gs.append(Group("c02_expand", ["c02::expand_operands_all"], jobs=1, timeout=3400, mem_gb=48, native_replay=False,
+        gs.append(Group("c02_expand", ["c02::expand_tagged", "c02::expand_panicfree"], cbmc_args=QUIET, jobs=1, timeout=3400, mem_gb=46, native_replay=False,
                         extra_kani=["--no-assertion-reach-checks"],
-                        stubs=["u32::wrapping_add replaced by a checking stub that returns a fresh arbitrary value (UF-cut of the expansion recurrence)", "Hc128Core::sixteen_steps replaced by a counting stub inside init"]))
+                        stubs=["expand_tagged: u32::wrapping_add replaced by a checking stub that returns a distinct concrete tag per call (seed symbolic): key/IV layout for all seeds + dataflow test of the recurrence", "Hc128Core::sixteen_steps replaced by a counting stub inside init"]))
     return gs
 
 
 PROPS["C02"] = dict(
     level="proof",
-    level_text="Decomposed bounded-model-checking proof over all table contents, indices and counters: step_p/step_q equal Wu's P/Q step for every 4 KiB table and every five in-range indices; generate() and sixteen_steps() issue exactly the 16 specification steps (phase, index tuples mod 512, order, result placement, counter) for every block counter over the whole usize range; (thorough) the key/IV expansion stores Wu's W recurrence for every seed. Composition into 'every key, IV and position' is an induction written in DESIGN.md.",
-    level_note="Trusted: Kani/CBMC/CaDiCaL; the HC-128 reference model (self-tested on Wu's three vectors); the composition argument. A monolithic seed-to-keystream query is out of reach (initialisation alone is 2288 dependent steps over a 4 KiB table); the hand-out order of the 16 buffered words is C05.",
+    level_text="Decomposed bounded-model-checking proof over all table contents, indices and counters: step_p/step_q equal Wu's P/Q step for every 4 KiB table and every five in-range indices; generate() and sixteen_steps() issue exactly the 16 specification steps (phase, index tuples mod 512, order, result placement, counter) for every block counter over the whole usize range; the results of the key/IV expansion are stored at the right table positions and init runs exactly 64 warm-up blocks; (thorough) for every seed the initial 16 words are K K IV IV and - as a dataflow test with distinct concrete result tags, not a statement over all values - the operands of the 4 x 1264 additions of the expansion are those of Wu's recurrence. Composition into 'every key, IV and position' is an induction written in DESIGN.md.",
+    level_note="OUTSIDE the solver claim: that the key/IV expansion's recurrence holds for ALL values (the UF-cut harnesses expand_operands_* exist but their SSA conversion exceeds 42 GB on this machine - Hc128Core's 1024-word table is above CBMC's array-flattening threshold); what is decided about the expansion is placement, key/IV layout for all seeds, and the recurrence's dataflow on one tagged run (thorough tier, 18 min). Everything after the expansion (every table state, step, block, counter) is decided for all values. Trusted: Kani/CBMC/CaDiCaL; the HC-128 reference model (self-tested on Wu's vectors 1 and 2); the composition argument. The hand-out order of the 16 buffered words is C05.",
     tiers=both(_c02),
     explanation="Solver obligations over the real code: (1) step_p/step_q vs Wu's step for ALL tables and index tuples incl. frame; (2) generate(): call shape for ALL counters (multiples of 16 over the full usize range) with the steps stubbed; (3) sixteen_steps(): same for the 64 initialisation blocks incl. table write-back; (4, thorough) init(): operands of every addition of the expansion are those of Wu's recurrence for ALL seeds, final table = W[256..1280], exactly 64 warm-up blocks from counter 0.",
     bounds="no bound on table contents, indices (< 512), counters; one block per query; expansion: all 1264 steps unrolled",
@@ -305,8 +312,8 @@ JIT_STUBS = ["JitterRng::memaccess and JitterRng::lfsr_time replaced by recordin
 
 
 def _c12(tier):
-    hs = ["jit::lfsr::fold_fixed", "jit::lfsr::loop_cnt", "jit::mem::index", "jit::stir::model", "jit::measure::one",
-          "jit::collect::s2", "jit::collect::timer_stats"]
+    hs = ["jit::lfsr::fold_fixed", "jit::lfsr::fold_var_small", "jit::lfsr::loop_cnt", "jit::mem::index", "jit::stir::model", "jit::measure::one",
+          "jit::collect::s2", "jit::collect::any_rounds_prefix", "jit::collect::timer_stats"]
     if tier == "thorough":
         hs += ["jit::lfsr::fold_var", "jit::collect::s4"]
     return [Group("c12", hs, jobs=10, timeout=1500, mem_gb=16, native_replay=False, stubs=JIT_STUBS)]
@@ -341,7 +348,9 @@ PROPS["C13"] = dict(
 
 
 def _c15(tier):
-    hs = ["jit::lfsr::inj_pool", "jit::lfsr::inj_time", "jit::measure::one"] + ["jit::stir_flip::b%d" % i for i in range(64)]
+    hs = ["jit::lfsr::inj_pool", "jit::lfsr::inj_time", "jit::lfsr::fold_var_small", "jit::measure::one"] + ["jit::stir_flip::b%d" % i for i in range(64)]
+    if tier == "thorough":
+        hs.append("jit::lfsr::fold_var")
     return [Group("c15", hs, jobs=16, timeout=900, mem_gb=12, native_replay=False, stubs=JIT_STUBS[:1])]
 
 
@@ -388,7 +397,7 @@ PROPS["C15"] = dict(
     level_text="Solver: the LFSR fold is injective in the pool for every time value and injective in the time value for every pool value (two-copy miters over the real lfsr_time, all 2^128 pairs); the accepted path rotates the pool by exactly 7 (a permutation); stir is affine: 64 single-bit-flip identities stir(a ^ e_i) ^ stir(a) = K_i for every pool a. Exact: the 64 constants K_i (from the real build) have GF(2) rank 64, so the affine map is one-to-one. A direct injectivity query for stir does not terminate in any back end (parity), hence level 'other' for that part.",
     level_note="Trusted: Kani/CBMC; induction over the bits of b turning the 64 flip identities into affinity; exact rank computation (two routes).",
     tiers=both(_c15), post=_c15_post, trusted_base=HYBRID_TRUST[:-1],
-    explanation="jit::lfsr::inj_pool, inj_time, jit::measure::one (rotate_left(7) on the accepted path), jit::stir_flip::b0..b63, rank certificate.",
+    explanation="jit::lfsr::inj_pool, inj_time (the single fold is injective both ways), jit::lfsr::fold_var_small / fold_var (with variable rounds the pool update is still exactly that single fold: the throw-away rounds do not reach the pool), jit::measure::one (rotate_left(7) on the accepted path), jit::stir_flip::b0..b63, rank certificate.",
     bounds="none (all 64-bit values); LFSR loop of 64 rounds unrolled",
 )
 
@@ -419,13 +428,14 @@ def _c09_full(tier):
     gs.append(Group("c09_hc", hc, jobs=5, timeout=900, mem_gb=12, native_replay=False,
                     confirm={"hc::u64_route_uf": "hc::u64_route_real"}, stubs=[HC_FS_STUB, UF_STUB, "Hc128Core::init replaced by a recording stub in core_from_seed_decode"]))
     isaac = ["c03::seed32::from_seed", "c03::seed32::seed_from_u64", "c03::seed32::from_rng", "c03::seed32::try_from_rng",
-             "c03::seed64::from_seed", "c03::seed64::seed_from_u64", "c03::init32::one_pass", "c03::init64::one_pass"]
+             "c03::seed64::from_seed", "c03::seed64::seed_from_u64", "c03::init32::one_pass", "c03::init64::one_pass",
+             "c03::seed32::rng_routes_shape", "c03::seed64::rng_routes_shape"]
     if tier == "thorough":
         isaac += ["c03::seed64::from_rng", "c03::seed64::try_from_rng"]
     gs.append(Group("c09_isaac", isaac, jobs=8, timeout=1800, mem_gb=16, native_replay=False, stubs=[ISAAC_INIT_STUB]))
     if tier == "thorough":
         gs.append(Group("c09_isaac_init", ["c03::init32::two_pass", "c03::init32::one_pass", "c03::init64::two_pass", "c03::init64::one_pass"],
-                        jobs=4, timeout=3000, mem_gb=24, native_replay=False, stubs=[ISAAC_CUT_STUB]))
+                        cbmc_args=QUIET, jobs=4, timeout=3000, mem_gb=24, native_replay=False, stubs=[ISAAC_CUT_STUB]))
     return gs
 
 
@@ -449,12 +459,13 @@ def _c10(tier):
     hs += ["c10::jump_xoroshiro128plus::clone_jump", "c10::jump_xoshiro128plusplus::clone_jump"]
     eqk = ["hc::core_eq_k0", "hc::core_eq_k1", "hc::core_eq_k511", "hc::core_eq_k512", "hc::core_eq_k1023"]
     if tier == "quick":
-        heavy = ["hc::core_eq_k0", "hc::core_eq_k512", "hc::core_eq_k1023", "hc::rng_clone_light"]
+        heavy = ["hc::core_eq_k0", "hc::core_eq_k512", "hc::core_eq_k1023", "hc::rng_clone_light", "hc::rng_eq_index_light"]
     else:
-        heavy = eqk + ["hc::rng_clone_light", "hc::core_clone", "hc::rng_eq_index", "hc::rng_clone", "hc::buffer_is_function_of_core",
+        heavy = eqk + ["hc::rng_clone_light", "hc::rng_eq_index_light", "hc::core_clone", "hc::rng_eq_index", "hc::rng_clone",
                  "c03::cl32::core_eq_fields", "c03::cl32::clone", "c03::cl64::core_eq_fields", "c03::cl64::clone"]
     return [Group("c10", hs, jobs=16, timeout=900, mem_gb=12, native_replay=False, stubs=[UF_STUB]),
-            Group("c10_hc", heavy, jobs=5, timeout=2400, mem_gb=16, native_replay=False, extra_kani=["--no-assertion-reach-checks"], stubs=[GEN_STUB])]
+            Group("c10_hc", heavy, cbmc_args=QUIET, jobs=5, timeout=2400, mem_gb=16, native_replay=False, extra_kani=["--no-assertion-reach-checks"], stubs=[GEN_STUB])] + \
+        ([Group("c10_hcbuf", ["hc::buffer_is_function_of_core"], cbmc_args=QUIET, jobs=1, timeout=3000, mem_gb=40, native_replay=False, extra_kani=["--no-assertion-reach-checks"])] if tier == "thorough" else [])
 
 
 PROPS["C10"] = dict(
@@ -555,8 +566,8 @@ def _c03(tier):
                 stubs=[ISAAC_INIT_STUB, ISAAC_CUT_STUB, GEN_STUB])]
     if tier == "thorough":
         bands = ["c03::gen32::generate_%d" % i for i in range(4)] + ["c03::gen64::generate_%d" % i for i in range(4)]
-        gs.append(Group("c03_gen", bands, jobs=4, timeout=3400, mem_gb=14, native_replay=False, extra_kani=["--no-assertion-reach-checks"], stubs=[ISAAC_CUT_STUB]))
-        gs.append(Group("c03_init2", ["c03::init32::two_pass", "c03::init64::two_pass", "c05_block::isaac64::next"], jobs=3, timeout=3400, mem_gb=20,
+        gs.append(Group("c03_gen", bands, cbmc_args=QUIET, jobs=4, timeout=3400, mem_gb=14, native_replay=False, extra_kani=["--no-assertion-reach-checks"], stubs=[ISAAC_CUT_STUB]))
+        gs.append(Group("c03_init2", ["c03::init32::two_pass", "c03::init64::two_pass", "c05_block::isaac64::next"], cbmc_args=QUIET, jobs=3, timeout=3400, mem_gb=20,
                         native_replay=False, extra_kani=["--no-assertion-reach-checks"], stubs=[ISAAC_CUT_STUB]))
     return gs
 
@@ -593,7 +604,8 @@ def _c14(tier):
                 "c03::gen32::generate_0", "c03::gen32::generate_1", "c03::gen32::generate_2", "c03::gen32::generate_3",
                 "c03::gen64::generate_0", "c03::gen64::generate_1", "c03::gen64::generate_2", "c03::gen64::generate_3"]
     jit = ["jit::measure::one", "jit::collect::s2", "jit::collect::timer_stats", "jit::mem::index", "jit::lfsr::loop_cnt", "jit::lfsr::fold_fixed",
-           "jit::misc::set_rounds", "jit::half::ops2", "jit::stir::model", "jit::tt::prefix_tiny"]
+           "jit::misc::set_rounds", "jit::half::ops2", "jit::stir::model", "jit::tt::prefix_tiny",
+           "jit::collect::any_rounds_prefix", "jit::lfsr::fold_var_small"]
     if tier == "thorough":
         jit += ["jit::lfsr::fold_var", "jit::collect::s4", "jit::half::ops3", "jit::tt::prefix_stuck", "jit::tt::prefix_coarse", "jit::tt::all_readings"]
     return [Group("c14_xo", xo, jobs=12, timeout=1800, mem_gb=12, stubs=[UF_STUB]),
